@@ -285,6 +285,15 @@ pub fn generate(g: &mut Gen, thorough: bool) {
         let d = data(&mut g.rng, 3);
         g.push(super::op_line("default", &[], &[], &format!("cart ellps={name}"), "both", "F", &d), "model-every-builtin-ellipsoid", true);
     }
+    // recursion through several steps of a body: an error, at once
+    {
+        let res = vec![("r:two".to_string(), "r:two | r:two".to_string()), ("r:three".to_string(), "addone | r:three | r:three | r:three".to_string())];
+        for def in ["r:two", "r:three", "r:two inv | addone"] {
+            let d = data(&mut g.rng, 1);
+            g.push(case("default", &res, def, &d), "oracle-recursion-from-several-steps", true);
+            g.push(case("plain", &res, def, &d), "oracle-recursion-from-several-steps", true);
+        }
+    }
     // whole-number parameters at and beyond the ends of their ranges (the arithmetic on them is integer arithmetic)
     for v in ["0", "1", "60", "61", "-1", "255", "256", "65535", "65536", "4294967295", "4294967296", "9223372036854775807", "9223372036854775808", "18446744073709551615", "18446744073709551616", "-9223372036854775808", "1e3", "1.0", "00", "+1"] {
         for def in [format!("utm zone={v}"), format!("butm zone={v}"), format!("utm zone={v} south"), format!("addone | utm zone={v}"), format!("stack push=1,2 | stack roll={v},1 | stack pop=1,2"), format!("stack push=1,2 | stack roll=2,{v}"), format!("stack push={v}"), format!("stack pop={v}"), format!("axisswap order={v}"), format!("stack push=1,2,3 | stack unroll=3,{v}"), format!("stack push=1 | stack flip={v}")] {
